@@ -1069,8 +1069,11 @@ def g_function_frame(R, tier):
         for ret_used in (False, True):
             def run(c):
                 m = Machine(stubs=stubs())
+                # (a body is never empty; what its last statement is must not matter to the frame)
                 node = ast.FunctionDef(name="f", args=ast.arguments(posonlyargs=[], args=[], kwonlyargs=[], kw_defaults=[], defaults=[]),
-                                       body=[], decorator_list=[], returns=None, lineno=7, col_offset=0)
+                                       body=[CL.src("first-statement", ast.stmt, only=[ast.Pass, ast.Expr, ast.Return, ast.If]),
+                                             CL.src("last-statement", ast.stmt, only=[ast.Pass, ast.Expr, ast.Return, ast.If, ast.While])],
+                                       decorator_list=[], returns=None, lineno=7, col_offset=0)
                 REG = CL.seg("RET", lambda t: [CL.absnode(("R", ("retbody", t)), ("R", tagstr(("retbody", t))))])
                 inner = c07.mk_function_nsp(node, flow_ctrl_return_used=ret_used, return_node_bodies=[REG])
                 outer = CL.mk_nsp("outer", inner_nsp=[inner])
